@@ -1082,10 +1082,18 @@ class ChannelFactory:
     def _finished_receiving(self) -> None:
         with self._writelock:
             self.finished = True
+        # an endmarker callback that raises must neither keep the other
+        # channels open nor the gateway from winding down
         for id in self._list(self._channels):
-            self._local_close(id, sendonly=True)
+            try:
+                self._local_close(id, sendonly=True)
+            except Exception as exc:
+                self.gateway._trace(self.gateway._geterrortext(exc))
         for id in self._list(self._callbacks):
-            self._no_longer_opened(id)
+            try:
+                self._no_longer_opened(id)
+            except Exception as exc:
+                self.gateway._trace(self.gateway._geterrortext(exc))
 
 
 class ChannelFile:
